@@ -475,8 +475,13 @@ class World:
         if path.startswith("/sys/block"):
             if path == "/sys/block":
                 return ("dir", sorted(self.sysblock))
-            if path[len("/sys/block/"):] in self.sysblock:
-                return ("dir", [])
+            rest = path[len("/sys/block/"):]
+            if rest in self.sysblock:
+                return ("dir", ["stat"])
+            if rest.endswith("/stat") and rest[:-5] in self.sysblock:
+                # block/genhd.c part_stat_show(): 11 (4.18: 15, 5.5: 17) counters; values nobody
+                # lists in /proc/diskstats, so that a report built from here is recognisable
+                return ("file", (" ".join("%8d" % (7400 + i) for i in range(17)) + "\n").encode())
         if path in self.files:
             return ("file", self.files[path])
         if path in self.links:
